@@ -12,7 +12,7 @@ from vlib import *
 # --------------------------------------------------------------------------
 # configurations (measured: see notes/C12.md)
 
-SYN = {"quick": [("SyntaxQ.cfg", None, None), ("SyntaxSim.cfg", "num=12", 8)],
+SYN = {"quick": [("SyntaxQ.cfg", None, None), ("SyntaxQ3.cfg", None, None), ("SyntaxSim.cfg", "num=12", 8)],
        "thorough": [("SyntaxT.cfg", None, None), ("SyntaxSim.cfg", "num=120", 8)]}
 LEX = {"quick": ["StrLexQ.cfg"], "thorough": ["StrLexT.cfg"]}
 
